@@ -186,7 +186,8 @@ pub const QUERIES: &[&str] = &[
 /// Seeded acyclic taxonomy (multiple inheritance, diamonds, conjuncts, feature keys, undefined
 /// supertypes, choices, tagOn, a transitive relationship) as a Zinc defs grid.
 pub fn gen_taxonomy(rng: &mut Rng) -> (String, Vec<String>) {
-    let n = rng.range(3, 24);
+    // a quarter of the taxonomies are large enough for defs with very many direct supertypes
+    let n = if rng.chance(1, 4) { rng.range(24, 48) } else { rng.range(3, 24) };
     gen_taxonomy_n(rng, n)
 }
 
@@ -243,7 +244,7 @@ pub fn gen_taxonomy_n(rng: &mut Rng, n: usize) -> (String, Vec<String>) {
         let mut is: Vec<String> = Vec::new();
         let eligible: Vec<usize> = (0..d_names.len()).filter(|j| levels[*j] < MAX_LEVEL).collect();
         // size outliers: now and then a def with very many direct supertypes
-        let k = if eligible.len() >= 17 && rng.chance(1, 24) { rng.range(17, eligible.len().min(48)) } else { rng.range(1, 3) };
+        let k = if eligible.len() >= 17 && rng.chance(1, if n <= 48 { 5 } else { 24 }) { rng.range(17, eligible.len().min(48)) } else { rng.range(1, 3) };
         let mut level = 1;
         for _ in 0..k {
             let parent = if eligible.is_empty() || rng.chance(1, 5) {
